@@ -44,6 +44,30 @@ BA = {
     "b565": (3, 4, [5, 6, 5], RGB), "b888": (3, 4, [8, 8, 8], RGB), "b3333": (3, 4, [3, 3, 3, 3], RGBA), "b5551abgr": (3, 4, [5, 5, 5, 1], ABGR),
     "baaa": (3, 8, [10, 10, 10], RGB), "b222w": (3, 8, [2, 2, 2], RGB), "b12345": (3, 4, [1, 2, 3, 4, 5], [0, 1, 2, 3, 4]),
 }
+# bit-aligned references with TIGHT carriers (bit field exactly pixel-sized): only positions where every channel, at its own
+# normalised first bit, fits the bit field are in contract
+BA_TIGHT = {
+    "t2222": (4, 1, [2, 2, 2, 2], RGBA), "t232": (4, 1, [2, 3, 2], RGB), "t44": (4, 1, [4, 4], [0, 1]),
+    "t565": (4, 2, [5, 6, 5], RGB), "t565bgr": (4, 2, [5, 6, 5], BGR), "t8888": (4, 4, [8, 8, 8, 8], RGBA), "tg8": (4, 1, [8], [0]),
+}
+BA.update(BA_TIGHT)
+def pixel_fits(name, pos):
+    _, fb, ws, _ = BA[name]; lo = pos
+    for w in ws:
+        if lo % 8 + w > 8 * fb: return False
+        lo += w
+    return True
+def in_contract(op):
+    """every pixel position a bit-aligned op touches lets each channel fit its bit field (always true for carriers of pixel + 7 bits)"""
+    w = op.split()
+    if w[1] not in BA_TIGHT or w[0] in ("iadv", "iinc"): return True
+    bs = sum(BA[w[1]][2]); pos = lambda i: 8 * int(w[i]) + int(w[i + 1])
+    if w[0] in ("bget", "bset", "barith", "bassign"): ps = [pos(4)]
+    elif w[0] in ("bcopy", "bswap"): ps = [pos(4), pos(6)]
+    elif w[0] == "bfill": ps = [pos(4) + i * bs for i in range(int(w[6]))]
+    elif w[0] == "bcpy": ps = [pos(4) + i * bs for i in range(int(w[8]))] + [pos(6) + i * bs for i in range(int(w[8]))]
+    else: ps = []
+    return all(pixel_fits(w[1], p) for p in ps)
 def desc(c): return "%d:%s:%s" % (c[1], ",".join(map(str, c[2])), ",".join(map(str, c[3])))
 
 ARITH = ["inc", "dec", "pinc", "pdec", "add", "sub", "mul", "div"]
@@ -184,14 +208,15 @@ def gen_pixel_ops(ctx):
                 for _ in range(reps):
                     byte, off, ln = place()
                     ops.append("barith %s %s %d %d %d %d %s %d %s" % (name, d, ln, byte, off, k, op, arith_arg(r, op, w), patterned(r, ln)))
+        mult = 6 if name in BA_TIGHT else 1          # many candidate positions of tight carriers are out of contract and filtered away
         for kind in ("bcopy", "bswap"):
-            for _ in range(8 * reps):
+            for _ in range(8 * reps * mult):
                 pa = r.below(24); gap = r.choice([0, 0, 1, r.below(20)])        # often directly adjacent pixels
                 pb = pa + bs + gap
                 if r.chance(1, 2): pa, pb = pb, pa
                 ln = (max(pa, pb) + bs + 7) // 8 + (0 if r.chance(1, 2) else r.below(3))
                 ops.append("%s %s %s %d %d %d %d %d %s" % (kind, name, d, ln, pa // 8, pa % 8, pb // 8, pb % 8, patterned(r, ln)))
-        for _ in range(6 * reps):
+        for _ in range(6 * reps * mult):
             count = r.choice([0, 1, 2, 3, r.below(12)]); byte, off, ln = place(max(count, 1))
             ops.append("bfill %s %s %d %d %d %d %s %s" % (name, d, ln, byte, off, count, " ".join(str(r.below(1 << w)) for w in ws), patterned(r, ln)))
             count = r.choice([0, 1, 2, r.below(9)]); ps = r.below(24); pd = ps + count * bs + r.choice([0, 0, 3, r.below(16)])
@@ -208,7 +233,7 @@ def gen_pixel_ops(ctx):
                 for dlt in (-1, 0, 1, r.range(2, 1000)):
                     if abs((far + dlt) * bs) < 2**32 - 64: ops.append("iadv %s %s %d %d" % (name, d, off, sign * (far + dlt)))
             for k in (0, 1, 2, 3, 7, 8, 9, 40): ops.append("iinc %s %s %d %d" % (name, d, off, k))
-    return ops
+    return [o for o in ops if in_contract(o)]
 
 def route(op):
     w = op.split()
@@ -254,7 +279,7 @@ def shrink_sweeps(ctx, bins):
         if len(out) >= 40: break
     ctx.failures[:len(out)] = out
 
-BINARIES = [("field%d" % p, "harness/C08/field.cpp", p) for p in (1, 2, 3, 4)] + [("pixel%d" % p, "harness/C08/pixel.cpp", p) for p in (1, 2, 3)]
+BINARIES = [("field%d" % p, "harness/C08/field.cpp", p) for p in (1, 2, 3, 4)] + [("pixel%d" % p, "harness/C08/pixel.cpp", p) for p in (1, 2, 3, 4)]
 
 ASSUME = [
     "little-endian byte order (the model assembles a BitField from its bytes little-endian; the harness runs on x86-64)",
